@@ -2,6 +2,7 @@ import MageModel.Generated.Shapes
 import MageModel.Generated.Facts
 import MageModel.Generated.Template
 import MageModel.Bridge.Expected
+import MageModel.Generated.TemplateAst
 /-!
 Bridge for the front end (C04 C06 C07 C18 C19): parse/parse.go and the generated-main template still have the shapes
 `Parse/*.lean` and `Gen/Dispatch.lean` transcribe; the constants the theorems depend on have the proved values.
@@ -50,4 +51,20 @@ theorem shape_Functions_Less : Generated.Shapes.parse_Functions_Less = Bridge.Ex
 theorem shape_Imports_Less : Generated.Shapes.parse_Imports_Less = Bridge.Expected.parse_Imports_Less := rfl
 theorem shape_lowerFirstWord : Generated.Shapes.mage_lowerFirstWord = Bridge.Expected.mage_lowerFirstWord := rfl
 theorem shape_GenerateMainfile : Generated.Shapes.mage_GenerateMainfile = Bridge.Expected.mage_GenerateMainfile := rfl
+
+/-- the template uses only constructs the Lean interpreter (`Gen/Tpl.lean`) gives meaning to, so the regenerated
+`TemplateAst.nodes` *is* the template -/
+theorem template_translatable : Generated.TemplateAst.translatable = true := by decide
+/-- `ExecCode` is built from the 24 string literals `Gen/Emit.execCode` indexes; the ones it branches on are the four
+argument types, in this order -/
+theorem execCode_literals : Generated.TemplateAst.execCodeLits.length = 24 ∧
+    [Generated.TemplateAst.execCodeLits.getD 7 "", Generated.TemplateAst.execCodeLits.getD 9 "",
+     Generated.TemplateAst.execCodeLits.getD 11 "", Generated.TemplateAst.execCodeLits.getD 13 ""] =
+      ["string", "int", "bool", "time.Duration"] ∧
+    [Generated.TemplateAst.execCodeLits.getD 2 "", Generated.TemplateAst.execCodeLits.getD 3 "",
+     Generated.TemplateAst.execCodeLits.getD 4 "", Generated.TemplateAst.execCodeLits.getD 6 "",
+     Generated.TemplateAst.execCodeLits.getD 16 "", Generated.TemplateAst.execCodeLits.getD 17 "",
+     Generated.TemplateAst.execCodeLits.getD 18 "", Generated.TemplateAst.execCodeLits.getD 19 "",
+     Generated.TemplateAst.execCodeLits.getD 20 "", Generated.TemplateAst.execCodeLits.getD 21 ""] =
+      [".", "(&", "{}).", ".", "return ", "(", "ctx", "arg%d", ", ", ")"] := by decide
 end MageModel.Bridge.FE
